@@ -370,6 +370,22 @@ def frame_obligations(c, ctx, I, bound, old):
 
 
 # ---------------------------------------------------------------------------
+def _consts(e):
+    out, stack, seen = [], [e], set()
+    while stack:
+        t = stack.pop()
+        if t.get_id() in seen:
+            continue
+        seen.add(t.get_id())
+        if z3.is_quantifier(t):
+            stack.append(t.body())
+        elif z3.is_const(t) and t.decl().kind() == z3.Z3_OP_UNINTERPRETED:
+            out.append(t)
+        elif z3.is_app(t):
+            stack.extend(t.children())
+    return out
+
+
 class LemmaCtx:
     """Context handed to @lemma functions: contracts are used as the only
     knowledge about the functions (modular)."""
@@ -422,6 +438,43 @@ class LemmaCtx:
     def prove(self, name, goal, keep=False):
         """Prove `goal`; with keep=True it is available to later steps (hint)."""
         self.ctx.oblige(name, goal, keep=keep)
+        if self.ctx.results and self.ctx.results[-1]["status"] == "unsat" and isinstance(goal, z3.ExprRef):
+            self.__dict__.setdefault("proved", []).append(goal)
+
+    def instantiate(self, step, subst):
+        """an instance of a step proved for unconstrained fresh reals (which are implicitly universally quantified)"""
+        proved = self.__dict__.get("proved", [])
+        if not any(step.eq(p) for p in proved):
+            raise SymError("instantiate: not a proved step")
+        for v, _t in subst:
+            if not (z3.is_const(v) and v.decl().kind() == z3.Z3_OP_UNINTERPRETED):
+                raise SymError("instantiate: %s is not a variable" % v)
+            for a in self.ctx.solver.assertions():
+                if v.decl().name() in [d.decl().name() for d in _consts(a)]:
+                    raise SymError("instantiate: %s is constrained by the context" % v)
+        inst = z3.substitute(step, *[(v, L.to_z3(t)) for v, t in subst])
+        proved.append(inst)
+        return inst
+
+    def derive(self, name, goal, hints, abstract):
+        """Prove `goal` from steps already proved in this lemma (`hints`, each must be one of them) after replacing the terms in
+        `abstract` by fresh constants everywhere.  Validity of the generalised implication gives validity of the instance; the
+        context's other assumptions are not used (dropping assumptions is sound)."""
+        t0 = time.time()
+        proved = self.__dict__.get("proved", [])
+        for h in hints:
+            if not any(h.eq(p) for p in proved):
+                raise SymError("derive %s: a hint is not a proved step of this lemma" % name)
+        subs = [(L.to_z3(t), z3.Real("abs!%d" % i)) for i, t in enumerate(abstract)]
+        s = z3.Solver()
+        s.set("timeout", self.ctx.timeout_ms)
+        for h in hints:
+            s.add(z3.substitute(h, *subs))
+        s.add(z3.Not(z3.substitute(L.to_z3(goal), *subs)))
+        r = s.check()
+        self.ctx.results.append(dict(name=name, status=str(r), backend="z3(abstracted)", model=None, info="", seconds=round(time.time() - t0, 4), decisions=[]))
+        if r == z3.unsat:
+            proved.append(goal)
 
 
 def run_lemma(lem, registry, timeout_ms=10000):
@@ -435,6 +488,13 @@ def run_lemma(lem, registry, timeout_ms=10000):
         out["error"] = "out of subset: %s" % e
     except PathEnd:
         out["error"] = "vacuous: lemma assumptions inconsistent"
+    if out["error"] is None:
+        # vacuity guard: what the lemma assumed (sort invariants, lc.assume, kept hints) must be satisfiable
+        chk = z3.Solver()
+        chk.set("timeout", 5000)
+        chk.add(lc.ctx.solver.assertions())
+        if chk.check() == z3.unsat:
+            out["error"] = "vacuous: lemma assumptions inconsistent"
     obls = OrderedDict()
     for r in lc.ctx.results:
         nm = "lemma:%s:%s" % (lem.name, r["name"])
